@@ -53,6 +53,45 @@ pub fn sweeps(ctx: &Ctx) -> Vec<Sweep> {
 pub fn run(ctx: &Ctx) -> i32 {
     let sw = sweeps(ctx);
     let (s1, _ev) = run_sweep(ctx, &sw[0]);
+    // the public header API: Header::clear() / Header::new_empty() on the signature header
+    let mut h = Acc::new();
+    {
+        let env = crate::spec::Env::new(&ctx.repo, "c16");
+        let mut pkgs: Vec<(String, rpm::Package)> = vec![];
+        for rel in crate::common_assets::ASSETS {
+            pkgs.push((rel.to_string(), rpm::Package::open(ctx.asset(rel)).unwrap_or_else(|e| crate::ctx::machinery(&format!("{}: {}", rel, e)))));
+        }
+        for (n, mut sp) in [("built-one-file", crate::corpus::one_file()), ("built-rich", crate::corpus::rich())] {
+            for k in [None, Some(crate::keys::Key::Ed25519), Some(crate::keys::Key::Rsa2048)] {
+                sp.sign = k;
+                pkgs.push((format!("{} signed {:?}", n, k), sp.build(&env).unwrap_or_else(|e| crate::ctx::machinery(&format!("build: {}", e)))));
+            }
+        }
+        for (k, (name, p)) in pkgs.iter().enumerate() {
+            for op in ["signature.clear()", "signature = Header::new_empty()", "clear_signatures()", "signature.clear() then clear_signatures()"] {
+                h.evals += 1;
+                let mut q = p.clone();
+                match op {
+                    "signature.clear()" => q.metadata.signature.clear(),
+                    "signature = Header::new_empty()" => q.metadata.signature = rpm::Header::<rpm::IndexSignatureTag>::new_empty(),
+                    "clear_signatures()" => {
+                        let _ = q.clear_signatures();
+                    }
+                    _ => {
+                        q.metadata.signature.clear();
+                        let _ = q.clear_signatures();
+                    }
+                }
+                let case = || json!({"package": name, "operation": op});
+                oracle_offsets("header-api", &q, k as u64, &case, &mut h);
+                h.nontrivial += 1;
+                if k < 2 {
+                    h.sample((k * 10) as u64 + op.len() as u64, case);
+                }
+            }
+        }
+    }
+    let s_api = SubReport::new("header-api", "A", "assets and built packages (unsigned / Ed25519 / RSA-2048) after Header::clear() on the signature header, Header::new_empty(), clear_signatures() and their combination: offsets vs the written bytes", h);
     let s2 = crate::c01::run_assets(ctx, "assets");
     let s3 = crate::corpus::run_shared(ctx, "corpus", &["C16"]);
     for s in [&s1, &s3] {
@@ -62,7 +101,7 @@ pub fn run(ctx: &Ctx) -> i32 {
     }
     ctx.finish(
         "exploration",
-        vec![s1, s2, s3],
+        vec![s1, s_api, s2, s3],
         &["offset arithmetic is exercised for every signature-store residue mod 8; header sizes beyond the enumerated ones are covered by the assets and the corpus only"],
         vec![],
     )
